@@ -329,7 +329,7 @@ def vmp_concrete_jobs(seed=0):
                     d["VMP_AVX"] = 1
                 fn = "fft64_vmp_apply_dft_" + var
                 J.append(Job(name="vmp.apply_dft_%s.r%da%d.m%dx%d.N%d" % (var, rs, as_, nr, nc, n), props=["C11", "C18", "C15"], shape="S4",
-                             sources=SRC_[:1], harness="vec_vmp.c", entry="h_vmp_apply_dft", enforce=[(fn, "vmp_apply_dft__c")], avx=avx,
+                             sources=SRC_[:1] + ["arithmetic/vec_znx_dft.c"], harness="vec_vmp.c", entry="h_vmp_apply_dft", enforce=[(fn, "vmp_apply_dft__c")], avx=avx,
                              replace=[("fft64_vec_znx_dft", "vec_znx_dft_site__c"), ("fft64_vmp_apply_dft_to_dft_" + var, "vmp_apply_dft_to_dft_site__c")],
                              defines=d, cbmc_flags=["--object-bits", "10"], functions=[fn], timeout=600, tier="quick" if (n == 8 or not avx) else "thorough", replay={"driver": "vmp", "fn": "apply_dft_full_" + var},
                              bound_note="N=%d, shape (res,a,nrows,ncols)=(%d,%d,%d,%d), a stride N+1: scratch partition [rows*N*8 | 128 | 64*rows] against the two callee contracts" % (n, rs, as_, nr, nc)))
